@@ -382,8 +382,13 @@ def run_deletes(w, state0, plan):
             return sorted(mid(o) for o in list(cache.objects) if isinstance(o, tuple(w.classes)) and o._status_ in DEL)
         for st in plan:
             err = None; target_missing = False
-            if st[0] == 'obj': o = get(st[1])        # loading the target is a query: Pony flushes pending changes first
-            else: flush()                             # so does the SELECT of a query delete
+            try:
+                if st[0] == 'obj': o = get(st[1])        # loading the target is a query: Pony flushes pending changes first
+                else: flush()                             # so does the SELECT of a query delete
+            except Exception as e:                        # the flush of the earlier deletes failed: same as a failing commit
+                commit_err = 'flush:' + type(e).__name__
+                rollback()
+                break
             before = session_snapshot(w, cache)
             try:
                 if st[0] == 'obj':
@@ -402,13 +407,18 @@ def run_deletes(w, state0, plan):
                     if isinstance(v, core.SetData): bad = [x for x in v if x._status_ in DEL]
                     elif isinstance(v, core.Entity): bad = [v] if v._status_ in DEL else []
                     else: bad = []
-                    if bad: dangling.append([mid(o), attr.name, [mid(x) for x in bad]])
+                    if bad:
+                        # was the deleted object fully known to the session before the call, or a stub (primary key only)?
+                        rname = attr.reverse.name
+                        stub = any((type(x).__name__, x.id) not in before[0] or rname not in before[0][(type(x).__name__, x.id)][2] for x in bad)
+                        dangling.append([mid(o), attr.name, [mid(x) for x in bad], 'deleted-object-was-not-loaded' if stub else 'deleted-object-was-loaded'])
             steps.append({'err': err, 'missing': target_missing, 'dead': deleted_now(), 'diff': session_diff(before, after) if err else None,
                           'dangling': dangling})
-        try: commit()
-        except Exception as e:
-            commit_err = type(e).__name__
-            rollback()
+        if commit_err is None:
+            try: commit()
+            except Exception as e:
+                commit_err = type(e).__name__
+                rollback()
     return steps, commit_err
 
 
@@ -455,7 +465,7 @@ def _check_history(ctx, w, schema, prog, plan, state0, report):
         if rec['missing']:                       # the row is gone (deleted by an earlier step): nothing to call
             continue
         if rec['dangling'] and not viol:
-            viol = ('session-dangling:' + (rec['err'] or 'ok'), {'step': st, 'live object holds a deleted one': rec['dangling'][0]})
+            viol = ('session-dangling:%s:%s' % (rec['err'] or 'ok', rec['dangling'][0][3]), {'step': st, 'live object holds a deleted one': rec['dangling'][0][:3]})
         prev = state; ok_prefix = []
         # a query delete runs _delete_ per fetched object and stops at the first that raises
         expect_dead = sorted(i for i, so in enumerate(state) if not so['alive'])
@@ -493,9 +503,11 @@ def _check_history(ctx, w, schema, prog, plan, state0, report):
                 if rec['dead'] != sorted(i for i, so in enumerate(state) if not so['alive']) and not viol:
                     viol = ('failed-delete-changed-session:' + rec['err'], {'step': st, 'deleted-after-the-failed-call': rec['dead']})
                 if rec['err'] == 'ConstraintError':
-                    if not reqs and not viol:
-                        viol = ('refused-without-required-dependent', {'step': st, 'closure': C})
-                    elif reqs:
+                    # a refusal is justified by an object requiring a closure member through a relationship whose other side does not cascade
+                    blocking = [t for t in reqs if not w.side(w.rev(t[1]))['casc']]
+                    if not blocking:
+                        if not viol: viol = ('refused-without-required-dependent', {'step': st, 'closure': C})
+                    else:
                         inside = all(q in C for q, _, _ in reqs)
                         same_edge = [t for t in reqs if t[0] in C and w.side(t[1])['casc'] and t[2] in held(state[t[0]], t[1])]
                         if inside and same_edge and len(same_edge) == len(reqs):
@@ -665,7 +677,7 @@ WHAT = {
     'cascade-closure-differs': 'a successful delete deleted another set of objects than the cascade closure',
     'database-differs-from-prescribed-state': 'after commit the rows differ from: closure deleted, references to it NULLed/unlinked, nothing else changed',
     'dangling-after-commit': 'the committed database contains a reference to a missing row',
-    'session-dangling': 'after the call a live object of the session holds a deleted object',
+    'session-dangling': 'after the call a live object of the session still holds a deleted object (reference / collection membership not cleared)',
     'refused-without-required-dependent': 'ConstraintError although no required dependent exists',
     'bulk-dangling': 'a bulk delete left a reference to a missing row',
     'bulk-refused-changed-database': 'a refused bulk delete changed the database',
@@ -844,7 +856,14 @@ W_REQ_O2O = {     # Required one-to-one with cascade_delete=True: the owner can 
     'schema': {'nent': 2, 'rels': [{'kind': 'o2o', 'sym': False, 'a': S(0, req=True, casc=True), 'b': S(1)}]},
     'prog': [['create', 1, [[[0, True], None]]], ['create', 0, [[[0, False], 0]]], ['flush']],
     'plan': [['obj', 1]]}
-WITNESSES = [('cascade-cycle-one-to-one', W_CYCLE_O2O), ('cascade-cycle-self-parent', W_CYCLE_SELF), ('required-one-to-one-cascade', W_REQ_O2O)]
+W_STUB = {        # deleting an object the session knows by primary key only leaves it in its parent's collection (session only; rows are right)
+    'schema': {'nent': 1, 'rels': [{'kind': 'm2o', 'sym': False, 'a': S(0), 'b': S(0, coll=True, casc=False)},
+                                   {'kind': 'o2o', 'sym': False, 'a': S(0), 'b': S(0)}]},
+    'prog': [['create', 0, [[[0, False], None], [[1, False], None], [[1, True], None]]], ['flush'],
+             ['create', 0, [[[0, False], 0], [[1, False], None], [[1, True], None]]], ['flush'],
+             ['create', 0, [[[0, False], None], [[1, False], 1], [[1, True], None]]], ['flush']],
+    'plan': [['obj', 2], ['obj', 1]]}
+WITNESSES = [('stub-delete-stale-collection', W_STUB), ('cascade-cycle-one-to-one', W_CYCLE_O2O), ('cascade-cycle-self-parent', W_CYCLE_SELF), ('required-one-to-one-cascade', W_REQ_O2O)]
 
 
 def witnesses(ctx):
